@@ -129,7 +129,8 @@ def aggregate(prop, mod, tier, seed, results, reach, totals, lost, t0):
                 samples.append({"case": r["case"], "sig": r.get("sig"), "observed": r.get("observed", {}),
                                 "counters": r.get("counters", {})})
     out_lines = list(out_lines_early)
-    rdir = os.path.join(ROOT, "replays", prop)
+    OUT = os.environ.get("FV_OUT_DIR", ROOT)      # mutation experiments write their evidence / replays elsewhere
+    rdir = os.path.join(OUT, "replays", prop)
     replay_paths = []
     shutil.rmtree(rdir, ignore_errors=True)
     if unknown_findings:
@@ -200,8 +201,8 @@ def aggregate(prop, mod, tier, seed, results, reach, totals, lost, t0):
     extra = getattr(mod, "evidence_extra", None)
     if extra:
         ev["coverage"].update(extra(results))
-    os.makedirs(os.path.join(ROOT, "evidence"), exist_ok=True)
-    json.dump(ev, open(os.path.join(ROOT, "evidence", f"{prop}.json"), "w"), indent=1, default=str)
+    os.makedirs(os.path.join(OUT, "evidence"), exist_ok=True)
+    json.dump(ev, open(os.path.join(OUT, "evidence", f"{prop}.json"), "w"), indent=1, default=str)
     return code, out_lines, ev
 
 
